@@ -55,6 +55,12 @@ Check(r, idx) ==
         \* a BulkGet may leave a requested key out (without an error) only if a loader run that had finished by then reported it not found
         bulkMissing == {x \in rets : x.op = "BulkGet" /\ x.err = "absent"
                                      /\ ~\E y \in exits : y.k = x.k /\ y.err = "nf" /\ y.seq < x.seq}
+        \* a failed load is not cached and leaves no record behind: a Get CALLED after another Get had returned that failure must load
+        \* afresh (or join a later flight) - it cannot come back with the value of the same loader run (values are unique per run)
+        staleFail == {y \in rets : /\ y.op = "Get" /\ y.err = "err"
+                                    /\ \E x \in rets : x.op = "Get" /\ x.err = "err" /\ x.g # y.g /\ x.v = y.v /\ x.seq < callSeq(y.g)}
+        \* BulkGet does not fail because a key is not found (neither in its own load nor in a flight it joined): the key is left out
+        bulkNf == {x \in rets : x.op = "BulkGet" /\ x.err = "nf"}
         joinBad == {x \in rets : x.op = "Get" /\ x.err = "nf" /\ ~\E y \in exits : y.k = x.k /\ y.err = "nf"}
         \* C09: the final value of key 1
         fin(k) == {f.v : f \in {y \in SeqToSet(r.final) : y.k = k}}
@@ -110,6 +116,8 @@ Check(r, idx) ==
     \o (IF r.inflight = 0 /\ r.hung = 0 /\ r.afresh # 1 THEN <<F(idx, "C08.not_afresh", r.afresh)>> ELSE <<>>)
     \o (IF invented # {} THEN <<F(idx, "C08.invented_result", invented)>> ELSE <<>>)
     \o (IF bulkMissing # {} THEN <<F(idx, "C08.bulk_result_missing", bulkMissing)>> ELSE <<>>)
+    \o (IF staleFail # {} THEN <<F(idx, "C08.finished_failure_served_again", staleFail)>> ELSE <<>>)
+    \o (IF bulkNf # {} THEN <<F(idx, "C10.bulkget_fails_with_notfound", bulkNf)>> ELSE <<>>)
     \o (IF joinBad # {} THEN <<F(idx, "C08.notfound_without_loader", joinBad)>> ELSE <<>>)
     \o (IF across # {} THEN <<F(idx, "C09.install_across_invalidation", <<across, r.final>>)>> ELSE <<>>)
     \o (IF lostToNf # {} THEN <<F(idx, "C09.write_removed_by_notfound_load", <<lostToNf, r.final>>)>> ELSE <<>>)
